@@ -23,6 +23,7 @@ def check(ctx):
     from . import core9
 
     core9.validated_arguments_run_independent(ctx, "C07")
+    core9.module_connector(ctx, "C07")
 
 
 MUTANTS = [
